@@ -103,16 +103,16 @@ func (p *Plan) String() string {
 
 type weights struct {
 	app, add, burst, commit, rollback, del, compact, compactHead, compactOOO, compactStale, compactSel,
-	cleanTomb, mmap, setOOO, restart, tick, snapshot int
+	cleanTomb, mmap, setOOO, restart, tick, snapshot, compactFail int
 }
 
 func (w weights) list() []int {
 	return []int{w.app, w.add, w.burst, w.commit, w.rollback, w.del, w.compact, w.compactHead, w.compactOOO, w.compactStale,
-		w.compactSel, w.cleanTomb, w.mmap, w.setOOO, w.restart, w.tick, w.snapshot}
+		w.compactSel, w.cleanTomb, w.mmap, w.setOOO, w.restart, w.tick, w.snapshot, w.compactFail}
 }
 
 var opNames = []string{"app", "add", "burst", "commit", "rollback", "delete", "compact", "compacthead", "compactooo", "compactstale",
-	"compactsel", "cleantomb", "mmap", "setooo", "restart", "tick", "snapshot"}
+	"compactsel", "cleantomb", "mmap", "setooo", "restart", "tick", "snapshot", "compactfail"}
 
 // GenConfig draws the swarm configuration.
 func GenConfig(prop, tier string, seed uint64) Config {
@@ -233,13 +233,17 @@ func GenConfig(prop, tier string, seed uint64) Config {
 func profileWeights(prop string, c Config, r *prng.R) weights {
 	w := weights{app: 10, add: 40, burst: 14, commit: 14, rollback: 2, del: 3, compact: 6, compactHead: 1, compactOOO: 2,
 		compactStale: 1, compactSel: 1, cleanTomb: 1, mmap: 2, setOOO: 1, restart: 3, tick: 1, snapshot: 0}
+	if prop == "C01" {
+		w.compactFail = 1
+	}
 	switch prop {
 	case "C02":
 		w.add, w.burst, w.app, w.commit, w.rollback = 60, 4, 14, 14, 4
 		w.del, w.cleanTomb, w.compactStale, w.compactSel = 0, 0, 0, 0
 		w.compact, w.restart = 3, 2
 	case "C03":
-		w.compact, w.restart, w.del, w.cleanTomb, w.tick = 8, 2, 4, 2, 4
+		w.compact, w.restart, w.del, w.cleanTomb, w.tick = 8, 5, 4, 2, 4
+		w.compactFail = 3
 	case "C20":
 		w.del, w.cleanTomb, w.compact = 12, 5, 8
 	case "C09", "C07", "C08":
